@@ -245,8 +245,8 @@ impl Scenario for PoolScenario {
     }
     fn budget(&self, tier: Tier) -> u64 {
         match tier {
-            Tier::Quick => 5000,
-            Tier::Thorough => 400_000,
+            Tier::Quick => 25_000,
+            Tier::Thorough => 1_000_000,
         }
     }
     fn run(&self, cx: &mut Run) {
@@ -289,6 +289,10 @@ impl Scenario for PoolScenario {
             }
         }
         cx.ev(format!("pre-seeded: {} block(s) of {} bytes allocated and freed before the threads start; sizes used: {}", preseed, size_fixed, if one_class { format!("{}", size_fixed) } else { "16,32".into() }));
+        let aba_shape = cfg.chance(1, 3);
+        if aba_shape {
+            cx.cell(format!("{}/aba-shaped", kind.name()));
+        }
         let mailbox: Arc<Mutex<Vec<Vec<(SendBlk, usize)>>>> = Arc::new(Mutex::new((0..nthreads).map(|_| vec![]).collect()));
         let handoff_ok = kind != Kind::Fixed; // FixedCapacityAllocation is !Send
         let mut bodies: Vec<e1::Body> = vec![];
@@ -296,8 +300,26 @@ impl Scenario for PoolScenario {
             let planned = 2 + cfg.below(5);
             let mut ops = cx.src.ops(&format!("ops.t{}", t), planned);
             let mut list = vec![];
-            while let Some(o) = ops.next() {
-                list.push(o);
+            // swarm option: ABA-shaped workload - thread 0 just allocates (it is the one to be overtaken
+            // between its head load and its compare-exchange), the others start with alloc, alloc,
+            // free(first), which pops two blocks and pushes the first one back
+            let mut k = 0usize;
+            loop {
+                let o = if aba_shape {
+                    let kk = k;
+                    ops.next_with(move |r| {
+                        let rest = [r.below(1 << 20), r.below(1 << 20), r.below(1 << 20)];
+                        let kind = if t == 0 { 0 } else { [0u64, 0, 2][kk.min(2)] };
+                        if kk <= 2 { [kind, 0, rest[1], rest[2]] } else { [r.below(1 << 20), rest[0], rest[1], rest[2]] }
+                    })
+                } else {
+                    ops.next()
+                };
+                match o {
+                    Some(o) => list.push(o),
+                    None => break,
+                }
+                k += 1;
             }
             let pool = pool.clone_ref();
             let ledger = ledger.clone();
